@@ -15,8 +15,10 @@ const (
 	// oracle 4 (escape): of the forbidden globals only the file loaders of the base library
 	// (dofile, loadfile, require) are non-nil.
 	sigLoaders = "file-loaders-reachable"
-	// oracle 1 (bounded return): a worker stuck in gopher-lua's Go pattern matcher.
-	sigPatternHang = "hang-pattern-match"
+	// oracle 1 (bounded return): a worker stuck in Go code of gopher-lua's string library (the
+	// backtracking pattern matcher pm.recursiveVM or gsub's quadratic replacement loop), which
+	// never polls the context.
+	sigPatternHang = "hang-string-library-call"
 	// oracle 1 (bounded return): > 3 s because the traceback of an error raised in a frame
 	// that accumulated millions of tail calls is built one "(tailcall): ?" line at a time.
 	sigTailcallSlow = "slow-tailcall-traceback"
@@ -36,15 +38,18 @@ const (
 //	    Lua file from disk, loadfile leaks the first tokens of any file through its parse error.
 //	    Input class excluded: calls of dofile/loadfile whose argument names an existing file;
 //	    the three names in the "forbidden globals are nil" oracle.
-//	hang-pattern-match : string.find/match/gmatch/gsub run in Go (gopher-lua/pm, a recursive
-//	    backtracking matcher) and never poll the 1 s context. Input class excluded: pattern
-//	    calls whose worst-case number of backtracking paths C(n+k+1, k+1) exceeds 2e6, n = static
-//	    bound of the subject length, k = number of quantified (* + - ?) single-character items.
+//	hang-string-library-call : string.find/match/gmatch/gsub run in Go (gopher-lua/pm, a
+//	    recursive backtracking matcher; stringlib.go strGsubDoReplace copies the whole subject
+//	    once per match) and never poll the 1 s context. Input class excluded: pattern calls whose
+//	    worst-case number of backtracking paths C(n+k+1, k+1) exceeds 2e6, n = static bound of
+//	    the subject length, k = number of quantified (* + - ?) single-character items; gsub on
+//	    subjects longer than 4096 bytes (the generator's general string bound; the quadratic
+//	    replacement needs roughly 70 000 matching bytes to exceed 3 s).
 //	slow-tailcall-traceback : LState.stackTrace appends one line per accumulated tail call.
 //	    Input class excluded: tail calls (`return f(...)`) in recursion without a bound.
 //	panic-nil-return-value : xpcall(f, handler) where handler raises an error while handling an
 //	    error of f leaves gopher-lua's registry top wrong; the script's return value is then read
-//	    as Go nil and ingress.go:258 / custom_network_provider.go:291 panic.
+//	    as Go nil and returnValue.Type() in executeLuaForCanary (ingress.go, custom_network_provider.go) panics.
 //	    Input class excluded: xpcall with a message handler that raises an error.
 var knownOpen = map[string]bool{
 	sigNilReturn:    true,
